@@ -1586,6 +1586,7 @@ Script connect_script_ex(Rng &r, int id_base, int kind, int &connect_idx, bool &
         q.method = "CONNECT"; q.target = "tunnel.example:443"; q.version = "HTTP/1.1";
         { HeaderSpec h; h.name = "Host"; h.value = "tunnel.example:443"; q.headers.push_back(h); }
         if (r.coin()) { HeaderSpec h; h.name = "Proxy-Connection"; h.value = "keep-alive"; q.headers.push_back(h); }
+        q.xexpect.push_back(std::make_pair("@host.ci", Bytes("tunnel.example"))); q.xexpect.push_back(std::make_pair("req.port", Bytes("443")));   // authority-form target
         if (kind == 1) { static const int ST[] = {200, 200, 204, 299}; p.status = ST[r.below(4)]; p.reason = "Connection established"; expect_tunnel = true; }
         else if (r.chance(1, 3)) { static const int ST[] = {200, 204}; p.status = ST[r.below(2)]; p.reason = "Connection established"; }   // tunnel carrying plain HTTP
         else { static const int ST[] = {407, 403, 502, 400, 500, 302}; p.status = ST[r.below(6)]; p.reason = "Denied"; p.framing = FR_CL; p.body = p.payload = "denied"; HeaderSpec cl; cl.name = "Content-Length"; cl.value = "6"; p.headers.push_back(cl); }
